@@ -39,6 +39,9 @@ func (m *FileImporter) Name() string {
 		if p, err := filepath.Abs(path); err == nil {
 			path = p
 		}
+	} else {
+		// one file has one name: /x/y/m.ugo and /x/y/../y/m.ugo are the same module.
+		path = filepath.Clean(path)
 	}
 	return path
 }
